@@ -75,11 +75,13 @@ def gen_case(rng, tier, index):
                              for _ in range(rng.choice([0, 0, 1, 2]))]}
             scen.append(s)
         return {"layer": 2, "scenarios": scen}
-    if rng.random() < 0.4:
-        return _shape_case(rng) if rng.random() < 0.5 else _shape_failfast(rng)
+    if rng.random() < 0.45:
+        r = rng.random()
+        return _shape_case(rng) if r < 0.4 else (_shape_failfast(rng) if r < 0.8 else _shape_fingerprint(rng))
     model = projgen.gen_valid_project(rng, nmin=4, nmax=8,
                                       features=set(rng.sample(["checkoutscript", "diamond", "tools", "vars", "provideDeps",
-                                                               "import", "forward", "nobuild", "twins", "twins"], rng.randint(2, 6))) | {"diamond"})
+                                                               "import", "forward", "nobuild", "twins", "twins", "fingerprint", "fingerprint"],
+                                                              rng.randint(2, 6))) | {"diamond"})
     case = {"layer": 1, "model": model, "jobs": rng.choice([1, 2, 2, 3, 4, 8]), "keep_going": rng.random() < 0.4,
             "sched_seed": rng.getrandbits(32), "durations": rng.choice([[0, 0.001, 1, 2, 5, 30], [1], [0, 1], [0.001, 5]])}
     if rng.random() < 0.45:
@@ -147,6 +149,24 @@ def _shape_failfast(rng):
     return {"layer": 1, "model": model, "jobs": rng.choice([2, 2, 3]), "keep_going": False,
             "sched_seed": rng.getrandbits(32), "durations": [0, 0.001, 0.5, 1], "duration_by_match": dur,
             "fail": {"match": "/%s/%s/" % (step, victim), "nth": 1, "at": rng.randint(1, 4)}}
+
+def _shape_fingerprint(rng):
+    """Helper jobs: every leaf has its own fingerprint script, all of them become runnable
+    at once during the Build-Id calculation and have to share the job slots with the steps."""
+    n = rng.choice([3, 4, 5])
+    recipes = {}
+    leafs = ["x%d" % i for i in range(n)]
+    for l in leafs:
+        r = projgen._leaf(rng)
+        r["fingerprint"] = True
+        recipes[l] = r
+    root = projgen._leaf(rng)
+    root["depends"] = [{"name": d, "use": ["result", "deps"]} for d in leafs]
+    recipes["root"] = root
+    model = {"recipes": recipes, "classes": {}, "default_env": {}, "sources": {}, "order": ["root"] + leafs,
+             "features": ["shape-fingerprint"]}
+    return {"layer": 1, "model": model, "jobs": rng.choice([2, 2, 3]), "keep_going": rng.random() < 0.3,
+            "sched_seed": rng.getrandbits(32), "durations": rng.choice([[1], [1, 2], [0.5, 1, 3]])}
 
 def directed_cases(tier):
     # the cook pattern (spawn a child, yield the slot while waiting) under an
@@ -346,7 +366,10 @@ def _layer1(case, stats):
     try:
         proj = os.path.join(top, "w", "proj")
         os.makedirs(proj)
-        model = case["model"]
+        model = dict(case["model"])
+        # fingerprint scripts (helper jobs of the Build-Id calculation) read an emulated host id
+        model["hostfile"] = os.path.join(top, "hostid")
+        common.write_file(model["hostfile"], "h1\n")
         projgen.materialise(model, proj)
         N = case["jobs"]
         cfg = {"sched_seed": case["sched_seed"], "durations": case["durations"], "pre_hook": "verifsim.checks.c06:_instrument",
